@@ -117,3 +117,19 @@ fn('dsplib::RlsFilter<%s>::process' % CT, D, serves=['C12', 'C06', 'C05'], extra
        2: {'inv': [('shape', SHP)]}, 3: {'inv': [('shape', SHP)]}, 4: {'inv': [('shape', SHP)]}, 5: {'inv': [('shape', SHP)]},
        6: {'inv': [('shape', SHP)]}, 7: {'inv': [('shape', SHP)]}, 8: {'inv': [('shape', SHP)]}, 9: {'inv': [('shape', SHP)]},
    })
+
+fn('dsplib::RlsFilter<double>::RlsFilter', D, serves=['C12', 'C05'], extra_env=ENV, assigns=['this'],
+   requires=[('size', 'And(filter_len >= 1, filter_len <= 46340)'), ('ghost', 'And(0 <= r0, r0 < filter_len, 0 <= c0, c0 < filter_len)')],
+   lets={'r0': 'ghost_int("row")', 'c0': 'ghost_int("col")'}, throws='False',
+   ensures=[('invariant', RLS_OK), ('parameters', 'And(_n == filter_len, _mu == forget_factor, Not(_locked))'),
+            ('at_rest', 'And(forall(lambda k: Implies(And(0 <= k, k < _n), And(_u[k] == 0, _w[k] == 0))))'),
+            # initial inverse-correlation matrix: diag_load on the diagonal, zero elsewhere (diagonal regularisation)
+            # (r0, c0: arbitrary ghost row / column)
+            ('initial_matrix', '_p[r0*_n + c0] == If(r0 == c0, diag_load, 0)')],
+   loops={1: {'inv': [('shape', RLS_OK),
+                      ('done', '_p[r0*_n + c0] == If(And(r0 == c0, r0 < i), diag_load, 0)')]}})
+
+fn('dsplib::LmsFilter<double>::LmsFilter', D, serves=['C12', 'C05'], extra_env=ENV, assigns=['this'],
+   requires=[('size', 'And(len >= 2, len <= 1048576)')], throws='False',
+   ensures=[('invariant', LMS_OK), ('parameters', 'And(_len == len, _mu == step_size, _lk == leak, _method == method, Not(_locked))'),
+            ('at_rest', 'And(forall(lambda k: Implies(And(0 <= k, k < _len - 1), _u[k] == 0)), forall(lambda k: Implies(And(0 <= k, k < _len), _w[k] == 0)))')])
